@@ -459,6 +459,9 @@ breaking('SELF1-self-difference', {'C13': 'SELF1'}, edit=[('python/numqi/entangl
          "        tmp0 = torch.maximum(self._eps, 2*(prob*prob - purity))", "        tmp0 = torch.maximum(self._eps, 2*(purity - purity))")])
 breaking('SELF1-identical-arms', {'C18': 'SELF1'}, edit=[('python/numqi/entangle/upb.py',
          "hf_is_prime = lambda n: (n>=2) and", "hf_parity = lambda n: (1 if n%2 else 1)\nhf_is_prime = lambda n: (n>=2) and")])
+preserving('UV1-ok-merely-unused-name', ['C12'], edit=[('python/numqi/channel/_internal.py',
+           "    ret = np.array([\n        [[1,0], [0,np.sqrt(1-noise_rate)]],",
+           "    tmp9 = np.sqrt(noise_rate)*np.sqrt(1-noise_rate)\n    ret = np.array([\n        [[1,0], [0,np.sqrt(1-noise_rate)]],")])
 breaking('refix-get_gme_2qubit', {'C13': 'F2', 'C05': 'F2'}, patch_reverse='fix_78cd862.diff')
 
 # ---- behaviour-preserving edits for the second half of the round-3 rules
